@@ -321,6 +321,8 @@ class Interp:
 
     # -- expressions --------------------------------------------------------------------------
     def truth(self, v: Any) -> bool:
+        if type(v).__name__ == "Poly":
+            raise AnalysisError("ALG", "a symbolic count is used as a truth value")
         if isinstance(v, OrdInt):
             raise AnalysisError("CARD", f"ordinal {v.tag} used as truth value")
         if isinstance(v, (AObj, EnumVal, BoundMethod, FuncRef, ClassRef)):
@@ -798,6 +800,14 @@ class Interp:
             return abs(args[0])
         if name == "dict":
             return dict(*args, **kwargs)
+        if name == "round":
+            if any(isinstance(a, OrdInt) for a in args):
+                raise AnalysisError("CARD", "round() of an ordinal", where)
+            return round(*args)
+        if name == "print":
+            return None
+        if name == "reversed":
+            return list(reversed(list(self.iterate(args[0]))))
         if name == "hash":
             return ("hash", self.hash_key(args[0]))
         if name == "id":
@@ -859,6 +869,18 @@ class Interp:
             out.insert(i, item)
         return [x[1] for x in out] if keyed else out
 
+    def _apply2(self, f: Any, x: Any, y: Any) -> Any:
+        if isinstance(f, Lambda):
+            e2 = dict(f.env)
+            ps = [a.arg for a in f.node.args.args]
+            e2[ps[0]], e2[ps[1]] = x, y
+            return self.eval(f.node.body, e2, f.fi)
+        if isinstance(f, FuncRef):
+            return self.call(f.fi, [x, y])
+        if isinstance(f, BoundMethod):
+            return self.call(f.fi, [f.obj, x, y])
+        raise AnalysisError("ABSINT", "binary callable outside fragment")
+
     def _apply(self, f: Any, x: Any) -> Any:
         if isinstance(f, Lambda):
             e2 = dict(f.env)
@@ -870,7 +892,7 @@ class Interp:
 
 
 _MISSING = object()
-_BUILTINS = {"hash", "id", "len", "any", "all", "sum", "next", "isinstance", "list", "tuple", "set", "sorted",
+_BUILTINS = {"round", "print", "reversed", "hash", "id", "len", "any", "all", "sum", "next", "isinstance", "list", "tuple", "set", "sorted",
              "str", "bool", "int", "min", "max", "enumerate", "zip", "range", "hasattr",
              "callable", "float", "abs", "dict", "frozenset", "cast"}
 
